@@ -553,6 +553,8 @@ def o_C05(I):
 
 def o_C06(I):
     out = []
+    if any(e['kind'] == 'markdisc' for e in I.events):
+        return out           # resumed sessions re-send PUBLISH/PUBREL by design: judged by C17
     fed = {}
     order = []
     for e in I.events:
